@@ -3,6 +3,7 @@
 -/
 import VK.Model.STV
 import VK.Lemmas.Sum
+import VK.Lemmas.Legal
 import Mathlib.Data.Rat.Floor
 import Mathlib.Algebra.Order.Floor.Ring
 
@@ -42,6 +43,203 @@ theorem C02_threshold_of_run (cfg : STVCfg) (p : Profile) (ω : STVOracle) (r : 
   | raised e => simp [h0, bind, Outcome.bind] at h
   | oracleMismatch => simp [h0, bind, Outcome.bind] at h
   | outOfFuel => simp [h0, bind, Outcome.bind] at h
+
+/-! ### every round is a legal step of the documented count -/
+
+theorem applyTransfers_full (cfg : STVCfg) (hop : List Cand) (q : Int) (sample : Cand → List (List Cand × Nat))
+    (ws : List Cand) (bs bs' : List PBallot) (hf : cfg.transfer = .full)
+    (h : applyTransfers cfg hop q sample ws bs = .ok bs') : bs' = bs := by
+  induction ws generalizing bs with
+  | nil => simp only [applyTransfers] at h; injection h with h; exact h.symm
+  | cons w rest ih =>
+    simp only [applyTransfers] at h
+    cases h1 : applyTransfer cfg hop q (sample w) bs w with
+    | ok bs1 =>
+      simp only [h1, bind, Outcome.bind] at h
+      rw [ih bs1 h, applyTransfer_full cfg hop q _ bs bs1 w hf h1]
+    | raised e => simp [h1, bind, Outcome.bind] at h
+    | oracleMismatch => simp [h1, bind, Outcome.bind] at h
+    | outOfFuel => simp [h1, bind, Outcome.bind] at h
+
+/-- the test "somebody is at the threshold" read on the count state -/
+theorem above_iff (S : CState) (prev : RoundState) (q : Int) (hl : Linked S prev) :
+    (prev.scores.filter (fun cs => decide ((q : Rat) ≤ cs.2))).isEmpty = false ↔
+      ∃ c ∈ S.hopeful, (q : Rat) ≤ tally S.bs S.hopeful c := by
+  rw [hl.1]
+  constructor
+  · intro h
+    cases hf : (tallies S.bs S.hopeful).filter (fun cs => decide ((q : Rat) ≤ cs.2)) with
+    | nil => rw [hf] at h; simp at h
+    | cons cs _ =>
+      have hm : cs ∈ (tallies S.bs S.hopeful).filter (fun cs => decide ((q : Rat) ≤ cs.2)) := by rw [hf]; simp
+      obtain ⟨hmem, hq⟩ := List.mem_filter.1 hm
+      unfold tallies at hmem
+      obtain ⟨c, hc, rfl⟩ := List.mem_map.1 hmem
+      exact ⟨c, hc, by simpa using hq⟩
+  · rintro ⟨c, hc, hq⟩
+    have : (c, tally S.bs S.hopeful c) ∈ (tallies S.bs S.hopeful).filter (fun cs => decide ((q : Rat) ≤ cs.2)) :=
+      List.mem_filter.2 ⟨List.mem_map.2 ⟨c, hc, rfl⟩, by simpa using hq⟩
+    cases hf : (tallies S.bs S.hopeful).filter (fun cs => decide ((q : Rat) ≤ cs.2)) with
+    | nil => rw [hf] at this; cases this
+    | cons _ _ => rfl
+
+/-- in one-by-one mode the elected candidate has a maximal tally -/
+theorem onebyone_winner_max (cfg : STVCfg) (q : Int) (ω : STVOracle) (rnd : Nat) (S : CState) (prev : RoundState)
+    (g : Ranking) (tbs : List (List Cand × Ranking)) (hl : Linked S prev) (hn : S.hopeful.Nodup)
+    (hsim : cfg.simultaneous = false)
+    (h : electChoice cfg q ω rnd S prev = .ok (g, tbs)) :
+    g.flatten.length = 1 ∧ ∀ w ∈ g.flatten, ∀ c ∈ S.hopeful, tally S.bs S.hopeful c ≤ tally S.bs S.hopeful w := by
+  have hk : (prev.scores.map (·.1)).Nodup := by rw [hl.1, tallies_keys]; exact hn
+  have hkeys : prev.scores.map (·.1) = S.hopeful := by rw [hl.1, tallies_keys]
+  have hperm : prev.remaining.flatten.Perm S.hopeful := by
+    rw [hl.2]; have := scoreToRanking_perm prev.scores; rwa [hkeys] at this
+  unfold electChoice at h
+  simp only [hsim, Bool.false_eq_true, if_false] at h
+  cases he : electFromRanking (ω.pri rnd) prev.remaining 1 (some (currentProfile S)) cfg.tiebreak with
+  | ok r =>
+    simp only [he, bind, Outcome.bind, pure, Outcome.ok.injEq, Prod.mk.injEq] at h
+    obtain ⟨h1, _⟩ := h
+    subst h1
+    have hrn : prev.remaining.flatten.Nodup := hperm.nodup_iff.2 hn
+    have hne : ∀ x ∈ prev.remaining, x ≠ [] := by rw [hl.2]; exact scoreToRanking_groups_nonempty _
+    have hnd : ∀ x ∈ prev.remaining, x.Nodup := fun x hx => (List.nodup_flatten.1 hrn).1 x hx
+    have hsub : ∀ p, some (currentProfile S) = some p → p.cands.Nodup ∧ ∀ x ∈ prev.remaining, ∀ c ∈ x, c ∈ p.cands := by
+      intro p hp
+      injection hp with hp; subst hp
+      exact ⟨hn, fun x hx c hc => hperm.mem_iff.1 (List.mem_flatten.2 ⟨x, hx, hc⟩)⟩
+    refine ⟨(electFromRanking_count _ _ _ _ _ r hnd hsub he).1, ?_⟩
+    obtain ⟨g1, rest, hrank, hw⟩ := elect_one_from_first _ _ _ _ r hne hnd hsub he
+    rw [hl.2] at hrank
+    obtain ⟨v1, hg1, hmax⟩ := first_group_max prev.scores g1 rest hrank hk
+    intro w hwm c hc
+    obtain ⟨hpair, hlook⟩ := hg1 w (hw w hwm)
+    have hwh : w ∈ S.hopeful := by
+      have : w ∈ prev.scores.map (·.1) := List.mem_map.2 ⟨(w, v1), hpair, rfl⟩
+      rwa [hkeys] at this
+    have e1 : tally S.bs S.hopeful w = v1 := by
+      rw [← lookupScore_tallies _ _ _ hwh, ← hl.1]; exact hlook
+    have hcp : (c, tally S.bs S.hopeful c) ∈ prev.scores := by
+      rw [hl.1]; exact List.mem_map.2 ⟨c, hc, rfl⟩
+    rw [e1]; exact hmax _ hcp
+  | raised e => simp [he, bind, Outcome.bind] at h
+  | oracleMismatch => simp [he, bind, Outcome.bind] at h
+  | outOfFuel => simp [he, bind, Outcome.bind] at h
+
+/-- **C02 — each round is a legal step of the documented count** (every quota, mode, tiebreak and
+oracle). For the round `r` recorded by a successful step from the count state `S`:
+
+* the tallies and candidate order recorded for the round are the first-place weights of the
+  resulting ballots (`Linked S' r`);
+* if some tally is at or above the threshold nobody is eliminated, every elected candidate is a
+  hopeful candidate at or above the threshold — in simultaneous mode exactly those, in one-by-one
+  mode a single candidate of maximal tally — the hopeful set loses exactly the winners, and every
+  ballot counted for a winner `w` continues at `weight · (tally w − q) / tally w` (fractional rule;
+  unchanged for SequentialRCV's full-weight rule) while all other ballots are untouched;
+* otherwise, if the remaining candidates equal the unfilled seats they are all elected and the
+  count is over; and otherwise nobody is elected, exactly one candidate is eliminated, it has a
+  minimal tally, and no ballot weight changes. -/
+theorem C02_legal_step (cfg : STVCfg) (init : Profile) (q : Int) (ω : STVOracle) (rnd : Nat)
+    (S S' : CState) (prev r : RoundState) (recs : List RoundState)
+    (hi : init.cands.Nodup) (hcs : ∀ c ∈ S.hopeful, c ∈ init.cands)
+    (inv : StvInv init.cands S prev recs) (hl : Linked S prev)
+    (h : stvStep cfg init q ω rnd S prev = .ok (S', r)) :
+    Linked S' r ∧
+    ((∃ c ∈ S.hopeful, (q : Rat) ≤ tally S.bs S.hopeful c) →
+        r.eliminated = [] ∧
+        (∀ c ∈ r.elected.flatten, c ∈ S.hopeful ∧ (q : Rat) ≤ tally S.bs S.hopeful c) ∧
+        (cfg.simultaneous = true →
+          ∀ c, c ∈ r.elected.flatten ↔ (c ∈ S.hopeful ∧ (q : Rat) ≤ tally S.bs S.hopeful c)) ∧
+        (cfg.simultaneous = false → r.elected.flatten.length = 1 ∧
+          ∀ w ∈ r.elected.flatten, ∀ c ∈ S.hopeful, tally S.bs S.hopeful c ≤ tally S.bs S.hopeful w) ∧
+        S'.hopeful = S.hopeful.filter (fun c => !r.elected.flatten.contains c) ∧
+        (cfg.transfer = .fractional →
+          S'.bs = scaleAll S.hopeful q (fun w => tally S.bs S.hopeful w) r.elected.flatten S.bs) ∧
+        (cfg.transfer = .full → S'.bs = S.bs)) ∧
+    ((∀ c ∈ S.hopeful, tally S.bs S.hopeful c < (q : Rat)) →
+        ((S.hopeful.length = cfg.m - S.nElected ∧ S.nElected ≤ cfg.m) →
+          r.elected = prev.remaining ∧ r.eliminated = [] ∧ S'.hopeful = []) ∧
+        (¬ (S.hopeful.length = cfg.m - S.nElected ∧ S.nElected ≤ cfg.m) →
+          r.elected = [] ∧ S'.bs = S.bs ∧
+          ∃ c, r.eliminated = [[c]] ∧ c ∈ S.hopeful ∧ S'.hopeful = S.hopeful.filter (fun x => x != c) ∧
+            ∀ d ∈ S.hopeful, tally S.bs S.hopeful c ≤ tally S.bs S.hopeful d)) := by
+  refine ⟨stvStep_linked cfg init q ω rnd S S' prev r h, ?_, ?_⟩
+  · intro hex
+    have habove := (above_iff S prev q hl).2 hex
+    rcases stvStep_cases cfg init q ω rnd S S' prev r h with
+      ⟨g, tbs, bs', _, he, ha, hSb, hSh, _, hre, hrx, _⟩ | ⟨hab, _⟩ | ⟨hab, _⟩
+    · obtain ⟨hWn, hWs⟩ := electChoice_spec cfg q ω rnd S prev g tbs inv.hop_nodup inv.rem he
+      have hge := electChoice_ge cfg q ω rnd S prev g tbs hl inv.hop_nodup habove he
+      rw [hre]
+      refine ⟨hrx, fun c hc => ⟨hWs c hc, hge c hc⟩, ?_, ?_, hSh, ?_, ?_⟩
+      · intro hsim c
+        have : g = prev.remaining.takeWhile (fun g =>
+            match g with
+            | [] => false
+            | c :: _ => decide ((q : Rat) ≤ lookupScore prev.scores c)) := by
+          unfold electChoice at he
+          simp only [hsim, if_true, pure, Outcome.ok.injEq, Prod.mk.injEq] at he
+          exact he.1.symm
+        rw [this]
+        exact simultaneous_winners_exact S prev q hl inv.hop_nodup c
+      · intro hsim
+        exact onebyone_winner_max cfg q ω rnd S prev g tbs hl inv.hop_nodup hsim he
+      · intro hf
+        rw [hSb]
+        exact applyTransfers_fractional_pointwise cfg S.hopeful q _ hf g.flatten S.bs bs' hWn ha
+      · intro hf
+        rw [hSb]
+        exact applyTransfers_full cfg S.hopeful q _ g.flatten S.bs bs' hf ha
+    · rw [hab] at habove; cases habove
+    · rw [hab] at habove; cases habove
+  · intro hbelow
+    have hnot : ¬ ∃ c ∈ S.hopeful, (q : Rat) ≤ tally S.bs S.hopeful c := by
+      rintro ⟨c, hc, hq⟩; exact absurd (hbelow c hc) (not_lt.2 hq)
+    rcases stvStep_cases cfg init q ω rnd S S' prev r h with
+      ⟨g, tbs, bs', habove, _⟩ | ⟨_, hSh, _, _, hlen, hle, hre, hrx, _⟩ |
+      ⟨_, lowest, c, tbs, hlast, hlc, hSb, hSh, _, hre, hrx⟩
+    · exact absurd ((above_iff S prev q hl).1 habove) hnot
+    · exact ⟨fun _ => ⟨hre, hrx, hSh⟩, fun hn => absurd ⟨hlen, hle⟩ hn⟩
+    · have hcond : ¬ (S.hopeful.length = cfg.m - S.nElected ∧ S.nElected ≤ cfg.m) := by
+        -- the elimination branch is only reached when the fill-the-seats test fails
+        intro hc
+        unfold stvStep at h
+        simp only at h
+        split at h
+        · rename_i hab
+          have : (prev.scores.filter (fun cs => decide ((q : Rat) ≤ cs.2))).isEmpty = false := by simpa using hab
+          exact absurd ((above_iff S prev q hl).1 this) hnot
+        · split at h
+          · rename_i hcnd
+            simp only [pure, Outcome.ok.injEq, Prod.mk.injEq] at h
+            -- then the round would elect, not eliminate
+            have : r.eliminated = [] := by rw [← h.2]
+            rw [hrx] at this; cases this
+          · rename_i hcnd
+            apply hcnd
+            simp only [Bool.and_eq_true, decide_eq_true_eq]
+            exact ⟨hc.2, hc.1⟩
+      refine ⟨fun hc => absurd hc hcond, fun _ => ⟨hre, hSb, c, hrx, ?_, hSh, ?_⟩⟩
+      · have hrn : prev.remaining.flatten.Nodup := inv.rem.nodup_iff.2 inv.hop_nodup
+        have hlm : lowest ∈ prev.remaining := List.mem_of_getLast? hlast
+        have hln : lowest.Nodup := (List.nodup_flatten.1 hrn).1 lowest hlm
+        have hlh : ∀ x ∈ lowest, x ∈ S.hopeful := fun x hx =>
+          inv.rem.mem_iff.1 (List.mem_flatten.2 ⟨lowest, hlm, hx⟩)
+        exact hlh c (loserChoice_mem init ω rnd lowest c tbs hln hi (fun x hx => hcs x (hlh x hx)) hlc)
+      · have hk : (prev.scores.map (·.1)).Nodup := by rw [hl.1, tallies_keys]; exact inv.hop_nodup
+        have hrn : prev.remaining.flatten.Nodup := inv.rem.nodup_iff.2 inv.hop_nodup
+        have hlm : lowest ∈ prev.remaining := List.mem_of_getLast? hlast
+        have hln : lowest.Nodup := (List.nodup_flatten.1 hrn).1 lowest hlm
+        have hlh : ∀ x ∈ lowest, x ∈ S.hopeful := fun x hx =>
+          inv.rem.mem_iff.1 (List.mem_flatten.2 ⟨lowest, hlm, hx⟩)
+        have hcl : c ∈ lowest := loserChoice_mem init ω rnd lowest c tbs hln hi (fun x hx => hcs x (hlh x hx)) hlc
+        have hlast' : (scoreToRanking prev.scores).getLast? = some lowest := by rw [← hl.2]; exact hlast
+        obtain ⟨v0, hv0, hmin⟩ := last_group_min prev.scores lowest hlast' hk
+        intro d hd
+        have e1 : tally S.bs S.hopeful c = v0 := by
+          rw [← lookupScore_tallies _ _ _ (hlh c hcl), ← hl.1]; exact (hv0 c hcl).2
+        have hdp : (d, tally S.bs S.hopeful d) ∈ prev.scores := by
+          rw [hl.1]; exact List.mem_map.2 ⟨d, hd, rfl⟩
+        rw [e1]; exact hmin _ hdp
 
 /-- non-vacuity: 10 votes, 2 seats: Droop 4, Hare 5 -/
 example : threshold .droop 2 10 = 4 ∧ threshold .hare 2 10 = 5 := by decide +kernel
